@@ -804,3 +804,4 @@ def shared_files(chk, repo, rule):
 
 # added rules (appended to the explanation the evidence file carries)
 EXPLANATION += (" " + "Added during the build (DESIGN.md 4.31, second table): (R23.6) effect rule - every file-system operation of ParallelEtherCat on the lock area is one of the protocol's own (method, operation, target) triples.")
+EXPLANATION += (' Added after wave 9: the bitmap runs are repeated with every extra argument a call site passes to FMMULock set true; R23.6 attributes the operations of a helper with one call site to its caller; the who-may and model rules run before the shape rules.')
